@@ -26,7 +26,8 @@ def run(c):
     drv, _, g = _gw.side_by_side(
         lambda: c.build("pktcls"),
         lambda: c.mc("TrafficClass", "TrafficClassMC.%s.cfg" % c.tier, workers=4, timeout=3000),
-        lambda: _gw.generator(c, "TrafficClassGen", "TrafficClassGen.%s.cfg" % c.tier))
+        lambda: _gw.generator(c, "TrafficClassGen", "TrafficClassGen.%s.cfg" % c.tier),
+        c=c, names=("build", "mc", "gen"))
     pk = [p for (p,) in _gw.printed(g.out, "PKTS")]
     if not pk:
         raise vlib.Infra("generator printed no packet grid")
@@ -51,7 +52,7 @@ def run(c):
         tr = "%s/trace-%d.ndjson" % (c.scratch, i)
         c.run_driver(drv, ["-in", scn, "-out", tr])
         traces.append(tr)
-    _gw.validate_all(c, "TrafficClassTrace", "TrafficClassTrace.cfg", traces)
+    _gw.validate_all(c, "TrafficClassTrace", "TrafficClassTrace.cfg", traces, minimal=True)
     account(c, traces)
     c.cov["exhaustive"] = True
     c.notes.append("expressions=%d packets=%d" % (len(trees), len(pkts)))
